@@ -925,7 +925,16 @@ func (w *proxyWorld) buildConfig() *config.Config {
 }
 
 func runProxyPlan(t *testing.T, planAny any, ctl Ctl) *Result {
-	p := planAny.(*ProxyPlan)
+	w, res := execProxyPlan(t, planAny.(*ProxyPlan), ctl)
+	if res.Infra != "" {
+		return res
+	}
+	judgeProxy(w, res)
+	return res
+}
+
+// execProxyPlan runs one world and returns it with the recorded exchanges, unjudged.
+func execProxyPlan(t *testing.T, p *ProxyPlan, ctl Ctl) (*proxyWorld, *Result) {
 	res := newResult()
 	dir := newRunDir()
 	os.Chdir(dir)
@@ -1041,9 +1050,8 @@ func runProxyPlan(t *testing.T, planAny any, ctl Ctl) *Result {
 		}
 	})
 	if res.Infra != "" {
-		return res
+		return w, res
 	}
 	sort.SliceStable(w.exch, func(i, j int) bool { return w.exch[i].SendSeq < w.exch[j].SendSeq })
-	judgeProxy(w, res)
-	return res
+	return w, res
 }
